@@ -951,3 +951,8 @@ seed("c11-trim-rposition-drops-constant", "C11", PM, _TRIM_OLD, """        let k
             None => 0,
         };
         self.coeffs.truncate( keep );""", "trim")
+seed("c06-from-vecs-strictly-increasing", "C06", SP, "        //TODO check that the vectors are the correct length val.len() == row_index.len()\n        Self {",
+     '        if col_start.windows( 2 ).any( |w| w[ 0 ] >= w[ 1 ] ) { panic!( "Sparse matrix from_vecs: col_start must be increasing." ); }\n        Self {', "accepts-empty-columns")
+seed("n-c06-from-vecs-non-decreasing", "C06", SP, "        //TODO check that the vectors are the correct length val.len() == row_index.len()\n        Self {",
+     '        if col_start.windows( 2 ).any( |w| w[ 0 ] > w[ 1 ] ) { panic!( "Sparse matrix from_vecs: col_start must not decrease." ); }\n        Self {', "SILENT",
+     "neutral on well-formed input: only decreasing column starts are refused")
